@@ -12,6 +12,7 @@ through the shim; every such call passes through `sys_enter`, which
 A blocking call runs the event loop inline (`block`) until its wake condition
 holds or its deadline passes; nothing here reads a real clock or a PRNG.
 """
+import errno
 import heapq
 import sys
 import threading
@@ -89,6 +90,11 @@ class World(object):
         self.short_i = 0
         self.on_read = None        # optional callable(fd, data) after every CUT read
         self.short_fd = None       # short writes apply to this descriptor only
+        # EINTR plan: [[n, delay_us], ...]: the n-th select/poll of the code under test that really has to wait is
+        # interrupted by a signal `delay_us` after it started (pre-PEP-475 semantics: InterruptedError reaches the caller)
+        self.cost_total = 0        # virtual time charged for the system calls themselves (not for waiting inside them)
+        self.eintr_plan = {int(n): int(d) for n, d in (scenario.get('eintr') or [])}
+        self.wait_calls = 0
 
     # ---------------------------------------------------------------- stats
     def fault(self, kind, n=1):
@@ -108,6 +114,19 @@ class World(object):
             self.fault('short_write')
             return int(s)
         return 0
+
+    def wait_interruptible(self, cond, timeout_us, what):
+        """block() for select/poll of the code under test; raises InterruptedError(EINTR) when the scenario's
+        EINTR plan places a signal inside this wait and nothing became ready before it."""
+        self.wait_calls += 1
+        d = self.eintr_plan.get(self.wait_calls)
+        if d is None or (timeout_us is not None and d >= timeout_us):
+            return self.block(cond, timeout_us, what)
+        if self.block(cond, d, what):
+            return True
+        self.fault('eintr')
+        self.log('eintr', (what, d), None)
+        raise InterruptedError(errno.EINTR, 'Interrupted system call')
 
     # ----------------------------------------------------------------- time
     def time(self):
@@ -159,6 +178,7 @@ class World(object):
                                    self.last_site, name, site))
                     fn()
         c = self.costs[self.cost_i]
+        self.cost_total += c
         self.cost_i += 1
         if self.cost_i >= len(self.costs):
             self.cost_i = 0
